@@ -16,10 +16,10 @@ ASSUMPTIONS = ["'a flow never moves the index' is read as the recurrence states 
 
 
 def plan(tier):
-    n = 1500 if tier == "quick" else 40000
-    m = 400 if tier == "quick" else 10000
+    n = 1500 if tier == "quick" else 16000
+    m = 400 if tier == "quick" else 4000
     return [dict(unit="w1", n=n, builds=["py", "so"], case_timeout=60), dict(unit="w2", n=m, builds=["py", "so"], case_timeout=120),
-            dict(unit="scale", n=120 if tier == "quick" else 3000, builds=["py", "so"], case_timeout=240)]
+            dict(unit="scale", n=120 if tier == "quick" else 1200, builds=["py", "so"], case_timeout=240)]
 
 
 def floors(tier):
